@@ -597,6 +597,105 @@ fn answer_inner(line: &str) -> String {
             }
         }
         "hist" => hist(&a),
+        // ---- glue around the modelled core: the iterator-level entry points, the by-reference conversions, the
+        // extension-type classifier and the error texts (lines the other ops never execute)
+        "liiter" | "liiterp" => {
+            // `liiter <allow_extension> <subtag list>`: LanguageIdentifier::try_from_iter on an arbitrary subtag
+            // iterator (also the empty one); `liiterp` calls parser::parse_language_identifier_from_iter directly.
+            // The subtags the call leaves in the iterator are reported.
+            let allow = flag(a.first().copied().unwrap_or(""));
+            let toks = match a.get(1).and_then(|s| unhexlist(s)) {
+                Some(t) => t,
+                None => return "bad".to_string(),
+            };
+            let mut it = toks.iter().map(|t| t.as_slice()).peekable();
+            let r: Result<LanguageIdentifier, &'static str> = if op == "liiter" {
+                LanguageIdentifier::try_from_iter(&mut it, allow).map_err(|e| li_err(&e))
+            } else {
+                unic_langid::parser::parse_language_identifier_from_iter(&mut it, allow).map_err(|e| p_err(&e))
+            };
+            match r {
+                Ok(li) => {
+                    let rest: Vec<String> = it.map(|t| esc(t)).collect();
+                    format!("ok {};str={};rest={}", render_li(&li), esc(li.to_string().as_bytes()), rest.join(","))
+                }
+                Err(e) => e.to_string(),
+            }
+        }
+        "rawref" => {
+            // conversions taking the subtag by reference, and `Variant == str`
+            let kind = a.first().copied().unwrap_or("");
+            let v = arg!(1);
+            match kind {
+                "lang" => match Language::from_bytes(&v) {
+                    Ok(l) => {
+                        let raw: Option<u64> = (&l).into();
+                        match raw {
+                            Some(n) => format!("ok {}", n),
+                            None => "ok none".to_string(),
+                        }
+                    }
+                    Err(_) => "err".to_string(),
+                },
+                "script" => match Script::from_bytes(&v) {
+                    Ok(l) => {
+                        let s: &str = (&l).into();
+                        format!("ok {}", esc(s.as_bytes()))
+                    }
+                    Err(_) => "err".to_string(),
+                },
+                "region" => match Region::from_bytes(&v) {
+                    Ok(l) => {
+                        let s: &str = (&l).into();
+                        format!("ok {}", esc(s.as_bytes()))
+                    }
+                    Err(_) => "err".to_string(),
+                },
+                "variant" => match Variant::from_bytes(&v) {
+                    Ok(l) => {
+                        let n: u64 = (&l).into();
+                        let other = a.get(2).and_then(|s| unhex(s)).unwrap_or_default();
+                        let eqs = match std::str::from_utf8(&other) {
+                            Ok(s) => format!("{}{}", b(l == *s), b(l == s)),
+                            Err(_) => "nn".to_string(),
+                        };
+                        format!("ok {} {}", n, eqs)
+                    }
+                    Err(_) => "err".to_string(),
+                },
+                _ => "bad".to_string(),
+            }
+        }
+        "exttype" => {
+            let n: u8 = match a.first().and_then(|s| s.parse().ok()) {
+                Some(n) => n,
+                None => return "bad".to_string(),
+            };
+            match unic_locale::extensions::ExtensionType::from_byte(n) {
+                Ok(t) => format!("ok {}", esc(t.to_string().as_bytes())),
+                Err(e) => loc_perr(&e).to_string(),
+            }
+        }
+        "errdisp" => {
+            use unic_langid::parser::ParserError as P;
+            use unic_locale::parser::ParserError as Q;
+            let le: Result<Locale, _> = Locale::from_bytes(b"-");
+            let le2: Result<Locale, _> = Locale::from_bytes(b"en-u-c");
+            let texts = vec![
+                P::InvalidLanguage.to_string(),
+                P::InvalidSubtag.to_string(),
+                LanguageIdentifierError::Unknown.to_string(),
+                LanguageIdentifierError::ParserError(P::InvalidSubtag).to_string(),
+                Q::InvalidLanguage.to_string(),
+                Q::InvalidSubtag.to_string(),
+                Q::InvalidExtension.to_string(),
+                Q::LangIdError(P::InvalidLanguage).to_string(),
+                Q::from(P::InvalidSubtag).to_string(),
+                le.err().map_or("-".to_string(), |e| e.to_string()),
+                le2.err().map_or("-".to_string(), |e| e.to_string()),
+            ];
+            format!("ok {}", texts.iter().map(|t| esc(t.as_bytes())).collect::<Vec<_>>().join("|"))
+        }
         #[cfg(feature = "serde")]
         "serto" => {
             let v = arg!(0);
